@@ -57,6 +57,9 @@ structure Buffer (D : Type) where
   turn : Int
   slice : Int
   agentV : V
+  /-- the turn id as it appears in payloads (`buf["turn_id"]`: an int, or a string such as "7" / "007"
+  that the driver must pass through untouched); `turn` is only its rank in `_sort_turn_buffers` -/
+  turnV : V
   logs : List (Str × Rec)
   deltas : D
   line : Str × Int
@@ -80,7 +83,7 @@ def applyPath : Str := [97, 112, 112, 108, 121, 46, 106, 115, 111, 110, 108]  --
 
 /-- the commit-phase `apply.jsonl` payload (key order as in the dict literal). -/
 def applyRec {D : Type} (b : Buffer D) (o : ApplyOut) : Rec :=
-  [([116, 117, 114, 110], .int b.turn),                                        -- turn
+  [([116, 117, 114, 110], b.turnV),                                           -- turn
    ([97, 103, 101, 110, 116], b.agentV),                                       -- agent
    ([97, 112, 112, 108, 105, 101, 100], o.applied),                            -- applied
    ([99, 108, 97, 109, 112, 115], o.clamps),                                   -- clamps
@@ -220,17 +223,20 @@ structure World where
 
 structure Script where
   agentV : V
+  turnV : V
   turn : Int
   slice : Int
   /-- graphs whose values the turn reads (contract: its own) -/
   reads : List Str
-  /-- `(path, fixed fields)`; the record gets a `val` field = sum of the values read -/
+  /-- `(path, fixed fields)`; the record gets a `turn` field (the ctx's turn id as the turn sees it)
+  and a `val` field = sum of the values read -/
   logs : List (Str × Rec)
   /-- `(graph, increment)` (contract: own graphs) -/
   deltas : List (Str × Int)
   line : Str
 
 def kVal : Str := [118, 97, 108]
+def kTurn : Str := [116, 117, 114, 110]
 
 def readVal (w : World) (reads : List Str) : Int :=
   reads.foldl (fun acc g => acc + ((w.graphs.lookup g).getD 0)) 0
@@ -242,13 +248,14 @@ def setG (g : Str) (inc : Int) : List (Str × Int) → List (Str × Int)
 def applyDeltas (gr : List (Str × Int)) (ds : List (Str × Int)) : List (Str × Int) :=
   ds.foldl (fun acc d => setG d.1 d.2 acc) gr
 
-def emptyScript (T S : Int) : Script := ⟨.int 0, T, S, [], [], [], []⟩
+def emptyScript (T S : Int) : Script := ⟨.int 0, .int T, T, S, [], [], [], []⟩
 
 def worldCompute (T S : Int) (scripts : List ((Str × Str) × Script)) (w : World) (a t : Str) :
     Buffer (List (Str × Int)) :=
   let sc := (scripts.lookup (a, t)).getD (emptyScript T S)
   let v := readVal w sc.reads
-  ⟨sc.turn, sc.slice, sc.agentV, sc.logs.map (fun l => (l.1, l.2 ++ [(kVal, V.int v)])), sc.deltas,
+  ⟨sc.turn, sc.slice, sc.agentV, sc.turnV,
+    sc.logs.map (fun l => (l.1, l.2 ++ [(kTurn, sc.turnV), (kVal, V.int v)])), sc.deltas,
     (sc.line, v)⟩
 
 def worldApply (w : World) (ds : List (Str × Int)) : World × ApplyOut :=
